@@ -47,13 +47,27 @@ import (
 	"github.com/thanos-io/thanos/pkg/verifhook/vfkit"
 )
 
-type vfc24Content struct{ b []byte }
+// vfc24Content is the in-memory limits file; set rewrites it like an operator editing the file would.
+type vfc24Content struct {
+	mu sync.Mutex
+	b  []byte
+}
 
-func (c vfc24Content) Content() ([]byte, error) { return c.b, nil }
-func (c vfc24Content) Path() string             { return "" }
+func (c *vfc24Content) Content() ([]byte, error) {
+	c.mu.Lock()
+	defer c.mu.Unlock()
+	return append([]byte(nil), c.b...), nil
+}
+func (c *vfc24Content) Path() string { return "" }
+func (c *vfc24Content) set(max int) {
+	c.mu.Lock()
+	c.b = []byte(fmt.Sprintf("write:\n  global:\n    max_concurrency: %d\n", max))
+	c.mu.Unlock()
+}
 
 type vfc24Client struct {
 	id       int
+	gen      int    // generation of the limits configuration (= gate instance) current when the request arrived
 	kind     string // v1 | v2 | otlp
 	cancel   context.CancelFunc
 	latch    chan struct{}
@@ -72,6 +86,8 @@ type vfc24Client struct {
 type vfc24Env struct {
 	mu      sync.Mutex
 	clients []*vfc24Client
+	gen     int   // current generation: number of limits reloads so far
+	limits  []int // max_concurrency per generation
 }
 
 func (e *vfc24Env) get(id int) *vfc24Client {
@@ -210,6 +226,10 @@ type vfc24Result struct {
 	maxInside  int
 	problems   []string
 	statuses   map[int]int
+	limits     []int // max_concurrency per configuration generation
+	reloads    int
+	reloadsInF int // reloads performed while at least one request was queued or inside
+	atLimit    bool
 }
 
 type vfc24Violation struct {
@@ -218,11 +238,14 @@ type vfc24Violation struct {
 }
 
 // vfc24Run plays one schedule. kinds[i] is the endpoint of client i.
-func vfc24Run(t *testing.T, rng *rand.Rand, max int, kinds []string, nEvents int, preCancel bool, label string) vfc24Result {
+// rrng != nil enables "reload limits configuration" events (drawn from their own stream).
+func vfc24Run(t *testing.T, rng, rrng *rand.Rand, max int, kinds []string, nEvents int, preCancel bool, label string) vfc24Result {
 	res := vfc24Result{statuses: map[int]int{}}
 	synctest.Test(t, func(t *testing.T) {
-		env := &vfc24Env{}
-		limiter, err := NewLimiter(vfc24Content{[]byte(fmt.Sprintf("write:\n  global:\n    max_concurrency: %d\n", max))}, nil, RouterIngestor, log.NewNopLogger(), time.Second)
+		env := &vfc24Env{limits: []int{max}}
+		content := &vfc24Content{}
+		content.set(max)
+		limiter, err := NewLimiter(content, nil, RouterIngestor, log.NewNopLogger(), time.Second)
 		if err != nil {
 			res.problems = append(res.problems, "limiter: "+err.Error())
 			return
@@ -247,7 +270,7 @@ func vfc24Run(t *testing.T, rng *rand.Rand, max int, kinds []string, nEvents int
 		var wg sync.WaitGroup
 		arrive := func(pre bool) *vfc24Client {
 			env.mu.Lock()
-			c := &vfc24Client{id: len(env.clients), latch: make(chan struct{}), arrived: true, preCanc: pre}
+			c := &vfc24Client{id: len(env.clients), gen: env.gen, latch: make(chan struct{}), arrived: true, preCanc: pre}
 			c.kind = kinds[c.id%len(kinds)]
 			env.clients = append(env.clients, c)
 			env.mu.Unlock()
@@ -291,6 +314,11 @@ func vfc24Run(t *testing.T, rng *rand.Rand, max int, kinds []string, nEvents int
 			defer env.mu.Unlock()
 			res.evals++
 			inside := 0
+			insideBy := make([]int, len(env.limits))
+			suffix := ""
+			if env.gen > 0 {
+				suffix = "-after-reload"
+			}
 			var st []string
 			for _, c := range env.clients {
 				switch {
@@ -298,6 +326,7 @@ func vfc24Run(t *testing.T, rng *rand.Rand, max int, kinds []string, nEvents int
 					st = append(st, "f")
 				case c.entered && !c.released:
 					inside++
+					insideBy[c.gen]++
 					st = append(st, "i")
 				case c.entered:
 					st = append(st, "l")
@@ -311,19 +340,31 @@ func vfc24Run(t *testing.T, rng *rand.Rand, max int, kinds []string, nEvents int
 					if strings.Contains(msg, "gate.Done") {
 						cls = "panic-gate-done"
 					}
-					res.violations = append(res.violations, vfc24Violation{fp: label + ":" + cls, at: step,
-						what: fmt.Sprintf("request handling of client %d (%s) panicked: %s", c.id, c.kind, msg)})
+					res.violations = append(res.violations, vfc24Violation{fp: label + ":" + cls + suffix, at: step,
+						what: fmt.Sprintf("request handling of client %d (%s, admitted under configuration generation %d, current generation %d) panicked: %s", c.id, c.kind, c.gen, env.gen, msg)})
 				}
 			}
 			res.sig = append(res.sig, strings.Join(st, ""))
 			if inside > res.maxInside {
 				res.maxInside = inside
 			}
-			if inside > max && !exceeded {
-				exceeded = true
-				res.violations = append(res.violations, vfc24Violation{fp: label + ":limit-exceeded", at: step,
-					what: fmt.Sprintf("%d requests are inside the gated section at the same time, max_concurrency is %d", inside, max)})
+			// Requests are accounted to the gate (configuration generation) that admitted them: a reload installs a
+			// new gate and requests still running under the previous one do not count against the new limit.
+			for g, n := range insideBy {
+				if n == env.limits[g] {
+					res.atLimit = true
+				}
+				if n > env.limits[g] && !exceeded {
+					exceeded = true
+					res.violations = append(res.violations, vfc24Violation{fp: label + ":limit-exceeded" + suffix, at: step,
+						what: fmt.Sprintf("%d requests admitted under configuration generation %d are inside the gated section at the same time, its max_concurrency is %d (limits by generation %v)", n, g, env.limits[g], env.limits)})
+				}
 			}
+		}
+		curMax := func() int {
+			env.mu.Lock()
+			defer env.mu.Unlock()
+			return env.limits[env.gen]
 		}
 		complete := func(c *vfc24Client) {
 			env.mu.Lock()
@@ -356,10 +397,16 @@ func vfc24Run(t *testing.T, rng *rand.Rand, max int, kinds []string, nEvents int
 				batch = 2 + rng.Intn(3)
 			}
 			queued, inside := snapshot()
+			// A reload batch contains no arrivals, so every request has an unambiguous admitting generation; the
+			// cancellations / completions of the batch run concurrently with the reload.
+			reload := rrng != nil && rrng.Intn(5) == 0
+			inFlight := len(queued) + len(inside)
 			var names []string
 			for b := 0; b < batch; b++ {
 				k := rng.Intn(10)
 				switch {
+				case reload && (k < 4 || (len(queued) == 0 && len(inside) == 0)):
+					// no arrival in a reload batch
 				case k < 4 || (len(queued) == 0 && len(inside) == 0):
 					pre := preCancel && rng.Intn(5) == 0
 					c := arrive(pre)
@@ -391,10 +438,31 @@ func vfc24Run(t *testing.T, rng *rand.Rand, max int, kinds []string, nEvents int
 					inside = append(inside[:i], inside[i+1:]...)
 					complete(c)
 					names = append(names, fmt.Sprintf("C%d", c.id))
+				case reload:
 				default:
 					c := arrive(false)
 					names = append(names, fmt.Sprintf("A%d", c.id))
 				}
+			}
+			if reload {
+				// the production reload path: StartConfigReloader's callback calls Limiter.loadConfig
+				newMax := curMax()
+				if rrng.Intn(2) == 0 {
+					newMax = 1 + rrng.Intn(4)
+				}
+				content.set(newMax)
+				if err := limiter.loadConfig(); err != nil {
+					res.problems = append(res.problems, "reload: "+err.Error())
+				}
+				env.mu.Lock()
+				env.gen++
+				env.limits = append(env.limits, newMax)
+				env.mu.Unlock()
+				res.reloads++
+				if inFlight > 0 {
+					res.reloadsInF++
+				}
+				names = append(names, fmt.Sprintf("R%d", newMax))
 			}
 			res.sig = append(res.sig, strings.Join(names, "+"))
 			synctest.Wait()
@@ -414,15 +482,15 @@ func vfc24Run(t *testing.T, rng *rand.Rand, max int, kinds []string, nEvents int
 		}
 		queued, _ := snapshot()
 		stuck := len(queued)
-		// quiescent probe: max+1 fresh requests, at most max may be inside
+		// quiescent probe: max+1 fresh requests (max of the current configuration), at most max may be inside
 		if stuck == 0 {
-			for i := 0; i <= max; i++ {
+			for i := 0; i <= curMax(); i++ {
 				arrive(false)
 			}
 			res.sig = append(res.sig, "probe")
 			synctest.Wait()
 			observe(-1)
-			for round := 0; round < max+4; round++ {
+			for round := 0; round < curMax()+4; round++ {
 				_, inside := snapshot()
 				if len(inside) == 0 {
 					break
@@ -468,6 +536,7 @@ func vfc24Run(t *testing.T, rng *rand.Rand, max int, kinds []string, nEvents int
 		if len(rest) > 0 {
 			res.statuses[-1] += len(rest) // requests that had to be cancelled by the harness at the end
 		}
+		res.limits = append([]int(nil), env.limits...)
 		env.mu.Unlock()
 		h.Close()
 		synctest.Wait()
@@ -479,12 +548,15 @@ func vfc24Run(t *testing.T, rng *rand.Rand, max int, kinds []string, nEvents int
 func TestVF_C24(t *testing.T) {
 	r := vfkit.Start(t, "C24")
 	defer r.Finish()
-	r.Rule("case = one schedule of 12..40 event batches {arrive, arrive-with-already-cancelled-context, client cancels while queued, client cancels while processed, complete} (batches of 1..4 events issued concurrently) " +
+	r.Rule("case = one schedule of 12..40 event batches {arrive, arrive-with-already-cancelled-context, client cancels while queued, client cancels while processed, complete, and in half of the schedules: reload the limits configuration " +
+		"(Limiter.loadConfig, the function the config reloader calls; same or changed max_concurrency 1..4; issued concurrently with the cancellations/completions of its batch, never in one batch with arrivals)} (batches of 1..4 events issued concurrently) " +
 		"against a real Handler whose Limiter was configured through the limits YAML with max_concurrency 1..4; endpoints remote-write v1, v2 (receiveHTTP), OTLP (receiveOTLPHTTP) or mixed; the fake TSDB commit blocks on a latch so requests pile up at the gate; " +
-		"followed by a drain and a quiescent probe with max+1 fresh requests. oracle after every batch (at quiescence): #requests that started reading their body and whose write was not yet released <= max_concurrency; no request-handling goroutine panicked. " +
-		"signature = sequence of event batches and per-client states; distinct/non-trivial = a schedule in which at least one queued request was cancelled")
+		"followed by a drain and a quiescent probe with max+1 fresh requests (max of the configuration then in force). oracle after every batch (at quiescence): for every configuration generation g, #requests that arrived under g, started reading their body and whose write " +
+		"was not yet released <= max_concurrency of g (a reload installs a new gate; requests still running under the previous gate are accounted to that gate, nothing is asserted about the sum across a reload boundary); no request-handling goroutine panicked. " +
+		"signature = sequence of event batches and per-client states; distinct/non-trivial = a schedule in which at least one queued request was cancelled or the configuration was reloaded while requests were queued or being processed")
 	r.Assume("the handlers read the request body only after writeGate.Start succeeded (enter point) and hold the slot until they return")
 	r.Assume("forward timeout (5m) never fires: the synctest fake clock does not advance while the monitor drives the schedule")
+	r.Assume("a request is admitted by the gate that was current when it arrived (the handler looks the gate up once, before waiting); lost slots / under-utilisation of a gate are counted, not asserted (not part of the statement)")
 	n := r.N(700, 40000)
 	r.Require(int64(n), n/2)
 	var sigs0 int
@@ -511,7 +583,12 @@ func TestVF_C24(t *testing.T) {
 		}
 		nEvents := 12 + rng.Intn(29)
 		preCancel := rng.Intn(4) == 0
-		res := vfc24Run(t, rng, max, kinds, nEvents, preCancel, label)
+		// reload events come from their own stream so that schedules without reloads are unchanged by them
+		var rrng *rand.Rand
+		if rr := r.RandS("reload", c); rr.Intn(2) == 0 {
+			rrng = rr
+		}
+		res := vfc24Run(t, rng, rrng, max, kinds, nEvents, preCancel, label)
 		r.Eval(res.evals)
 		r.Signature(strings.Join(res.sig, " "))
 		if len(res.problems) > 0 {
@@ -519,20 +596,25 @@ func TestVF_C24(t *testing.T) {
 			r.Inconclusive(fmt.Sprintf("case %d: %s", c, strings.Join(res.problems, "; ")))
 			continue
 		}
-		if res.cancQueued > 0 {
+		if res.cancQueued > 0 || res.reloadsInF > 0 {
 			r.Distinct(strings.Join(res.sig, " "))
+		}
+		r.Count("limits_reloads", res.reloads)
+		r.Count("limits_reloads_with_requests_in_flight", res.reloadsInF)
+		if res.statuses[-1] > 0 {
+			r.Count("requests_never_admitted(lost slot, not asserted)", res.statuses[-1])
 		}
 		r.Count("requests_entered_gate", res.entered)
 		r.Count("cancelled_while_queued", res.cancQueued)
 		r.Count("cancelled_while_processed", res.cancInside)
-		if res.maxInside == max {
+		if res.atLimit {
 			r.Count("schedules_reaching_the_limit", 1)
 		}
 		for code, k := range res.statuses {
 			r.Count(fmt.Sprintf("status_%d", code), k)
 		}
-		wit := map[string]any{"max_concurrency": max, "endpoints": kinds, "events_then_states": res.sig,
-			"legend": "events: A arrive, P arrive with cancelled context, X cancel while queued, Y cancel while processed, C complete; states per client: q queued/not entered, i inside, l released, f finished"}
+		wit := map[string]any{"max_concurrency": max, "max_concurrency_by_generation": res.limits, "endpoints": kinds, "events_then_states": res.sig,
+			"legend": "events: A arrive, P arrive with cancelled context, X cancel while queued, Y cancel while processed, C complete, R<n> reload limits config with max_concurrency n; states per client: q queued/not entered, i inside, l released, f finished"}
 		for _, v := range res.violations {
 			r.Violation(c, v.fp, v.what+fmt.Sprintf(" (max_concurrency=%d, endpoints=%v, after event batch %d)", max, kinds, v.at), wit)
 		}
